@@ -13,7 +13,7 @@ CONSTANTS Mode, KindsUnderTest, FaultDepth, MaxFrames, AllPTs, MaxCompound, MaxH
 VARIABLES pc, hist     \* hist: the calls made so far (hist mode)
 mvars == << vars, pc, hist >>
 
-Vals == CASE Mode \in {"wire", "foreign"} -> UNION { StarDom(k) : k \in KindsUnderTest }
+Vals == CASE Mode \in {"wire", "foreign"} -> (IF KindsUnderTest = {"PAIRS"} THEN PairAll ELSE UNION { StarDom(k) : k \in KindsUnderTest })
           [] Mode = "limits" -> LimitDom
           [] Mode = "variants" -> VarDom \cup InflateDom
           [] OTHER -> UNION { Tiny(k) : k \in KindsUnderTest }
